@@ -128,6 +128,12 @@ def wl_bloom(ctx, rng, case):
     on_disk = (not counting) and rng.random() < 0.35
     est, rate, m, k = gen.bloom_geometry(rng, max_bits=3000 if counting else 20000)
     keys = gen.universe(rng, rng.randint(2, 14))
+    if case.index % 20 == 7:
+        # arrays whose length is an exact multiple of 512 / 1024 / 4096 elements (whatever block size a bulk operation might use)
+        est, rate, m, k = rng.choice(gen.block_aligned_geometries(counting))
+        keys = gen.universe(rng, rng.randint(10, 24))
+        ctx.count("block_aligned_arrays")
+        ctx.observe("block_aligned_lengths", m if counting else (m + 7) // 8, cap=200)
     hname, hf = gen.pick_hash(rng, keys)
     cls = P.CountingBloomFilter if counting else P.BloomFilter
     case.desc = {"cls": "BloomFilterOnDisk" if on_disk else cls.__name__, "est": est, "rate": rate, "hash": hname}
